@@ -148,6 +148,10 @@ def run(tier):
     n = 150 if tier == "quick" else 20000
     ne, estats, dout, srcs = execstream.run(ck, n, ck.seed + 8, level=3, label="exec")
     ck.log("generated programs with calls through every parameter kind: %d runs %s" % (ne, dict(estats)))
+    # the tie of Model/CallFrame.v: verdict and effect of generated callees on the caller's variables
+    from .. import cftie
+    cfn, cfstats, cfbad = cftie.run(ck, 500 if tier == "quick" else 30000, ck.seed + 88)
+    bad += cfbad
     if not proof_ok:
         ck.violation("tie-broken:proof", "Props/C08.v no longer checks", getattr(ck, "proof_output", "")[-2000:])
     ck.coverage.update(
